@@ -20,6 +20,76 @@ pub enum Which {
 pub struct LatticeCheck {
     pub which: Which,
     pub exclusive_space: bool,
+    /// use the repository's own test resource dictionary instead of generated ones
+    pub resources: bool,
+}
+
+/// The repository's test resources as a logical spec (None if they cannot be read or interpreted).
+pub fn resource_spec() -> Option<(crate::gen::dict::DictSpec, Vec<crate::gen::dict::LexRow>)> {
+    let dir = std::path::Path::new(env!("CARGO_MANIFEST_DIR")).join("../../repo/vibrato/src/tests/resources");
+    let dir = if dir.exists() { dir } else { std::path::PathBuf::from("/repo/vibrato/src/tests/resources") };
+    let rd = |n: &str| std::fs::read_to_string(dir.join(n)).ok();
+    let spec = crate::gen::dict::spec_from_files(&rd("lex.csv")?, &rd("matrix.def")?, &rd("char.def")?, &rd("unk.def")?)?;
+    // user.csv as a logical user lexicon
+    let uspec = crate::gen::dict::spec_from_files(&rd("user.csv")?, &rd("matrix.def")?, &rd("char.def")?, &rd("unk.def")?)?;
+    Some((spec, uspec.lex))
+}
+
+const RES_CHARS: &[char] = &[
+    '京', '都', '東', '大', '阪', '一', '二', '三', '人', '本', 'a', 'b', 'k', 'z', 'X', '0', '9', ' ', '\u{3000}', 'に', 'た', 'の', 'カ', 'ー', 'α', 'я', '!', '、',
+    '\u{1F600}', '\u{4E00}', '\u{4E8C}', '\u{3400}', '\u{9FFF}', '\u{A000}', '\u{FF21}', '\u{FF10}',
+];
+
+fn resource_case() -> BoxedStrategy<TokCase> {
+    use proptest::collection::vec;
+    (
+        vec(vec((0u8..4, any::<u16>(), 1u8..=3), 1..=8), 6),
+        any::<bool>(),
+        vec((any::<bool>(), 0u8..10), 2..=3),
+    )
+        .prop_filter_map("resources unavailable", |(raw, with_user, raw_opts)| {
+            let (spec, user) = resource_spec()?;
+            let mut sentences = vec![];
+            for chunks in raw {
+                let mut s = String::new();
+                for (kind, r, n) in chunks {
+                    match kind {
+                        0 => s.push_str(&spec.lex[crate::engine::pick(r, spec.lex.len())].surface),
+                        1 if with_user => s.push_str(&user[crate::engine::pick(r, user.len())].surface),
+                        _ => {
+                            let c = RES_CHARS[crate::engine::pick(r, RES_CHARS.len())];
+                            for _ in 0..n {
+                                s.push(c);
+                            }
+                        }
+                    }
+                }
+                sentences.push(s);
+            }
+            let opts: Vec<crate::gen::dict::TokOpts> = raw_opts
+                .iter()
+                .map(|&(sp, g)| crate::gen::dict::TokOpts {
+                    ignore_space: sp,
+                    max_grouping_len: [0, 0, 0, 1, 2, 3, 24, 24, 1_000_000, 5][usize::from(g)],
+                })
+                .collect();
+            let space_ok = crate::props::common::c12_precondition(&spec, if with_user { &user } else { &[] });
+            let opts: Vec<crate::gen::dict::TokOpts> = opts
+                .into_iter()
+                .map(|mut o: crate::gen::dict::TokOpts| {
+                    o.ignore_space &= space_ok;
+                    o
+                })
+                .collect();
+            Some(TokCase {
+                spec,
+                user: with_user.then_some(user),
+                mapping: None,
+                opts,
+                sentences,
+            })
+        })
+        .boxed()
 }
 
 type Key = (usize, usize, usize, u8, u32, u16, u16);
@@ -222,6 +292,12 @@ fn eos_decides(refl: &RefLattice, rd: &RefDict) -> bool {
 impl Sub for LatticeCheck {
     type Case = TokCase;
     fn name(&self) -> &'static str {
+        if self.resources {
+            return match self.which {
+                Which::Optimality => "optimality_resources",
+                Which::Candidates => "candidates_resources",
+            };
+        }
         match (self.which, self.exclusive_space) {
             (Which::Optimality, false) => "optimality",
             (Which::Optimality, true) => "optimality_spaces",
@@ -230,6 +306,9 @@ impl Sub for LatticeCheck {
         }
     }
     fn strategy(&self, _tier: Tier) -> BoxedStrategy<TokCase> {
+        if self.resources {
+            return resource_case();
+        }
         let p = TokCaseParams {
             dict: DictParams {
                 space: if self.exclusive_space {
@@ -288,12 +367,28 @@ impl Sub for LatticeCheck {
             let tokenizer = make_tokenizer(dict, o.ignore_space, o.max_grouping_len)?;
             let mut worker = tokenizer.new_worker();
             for s in &case.sentences {
-                let (toks, mut dump) = guard(|| {
+                let res = guard(|| {
                     worker.reset_sentence(s);
                     worker.tokenize();
                     (tokens_of(&worker), lattice_dump(&worker))
-                })
-                .map_err(|p| format!("tokenize({s:?}, {o:?}): {p}"))?;
+                });
+                let (toks, mut dump) = match res {
+                    Ok(x) => x,
+                    Err(p) => {
+                        // Open known finding: the resource dictionary has categories without
+                        // unk.def entries; a sentence containing such a character may be
+                        // untokenizable. Signature: panic in the lattice code and such a character.
+                        let rc = rd.chars();
+                        let entryless = s.chars().any(|c| rd.unk_by_cat[rc.info(c).primary].is_empty());
+                        if self.resources && entryless && p.contains("tokenizer/lattice.rs") {
+                            ctx.count("known_finding_category_without_unk_entry_hits", 1);
+                            // the worker's buffers are in an undefined state after a panic
+                            worker = tokenizer.new_worker();
+                            continue;
+                        }
+                        return Err(format!("tokenize({s:?}, {o:?}): {p}"));
+                    }
+                };
                 ctx.eval();
                 for n in &mut dump.nodes {
                     let (l, r) = (usize::from(n.left_id), usize::from(n.right_id));
@@ -369,6 +464,16 @@ impl Sub for LatticeCheck {
     }
 }
 
+pub fn run_resources(which: Which, opts: &Opts, rep: &mut Report) {
+    use crate::engine::run_sub;
+    if resource_spec().is_none() {
+        rep.notes.push("the repository's test resources could not be interpreted by the strict reference parsers; resource sub-check skipped".into());
+        return;
+    }
+    let r = LatticeCheck { which, exclusive_space: false, resources: true };
+    run_sub(&r, opts, opts.tier.pick(1500, 30_000), rep);
+}
+
 pub fn run_c02(opts: &Opts) -> Report {
     use crate::engine::run_sub;
     let mut rep = Report::new("C02", "exploration");
@@ -378,12 +483,13 @@ pub fn run_c02(opts: &Opts) -> Report {
         "ties are unspecified: only costs are compared, never which of several optimal paths was returned".into(),
         "candidate generation is C03's concern: optimality is judged over the implementation's own candidate nodes (lattice dump)".into(),
     ];
-    let a = LatticeCheck { which: Which::Optimality, exclusive_space: false };
-    let b = LatticeCheck { which: Which::Optimality, exclusive_space: true };
+    let a = LatticeCheck { which: Which::Optimality, exclusive_space: false, resources: false };
+    let b = LatticeCheck { which: Which::Optimality, exclusive_space: true, resources: false };
     crate::props::committed_replays(&a, opts, &mut rep);
     crate::props::committed_replays(&b, opts, &mut rep);
     run_sub(&a, opts, opts.tier.pick(6000, 150_000), &mut rep);
     run_sub(&b, opts, opts.tier.pick(2500, 60_000), &mut rep);
+    run_resources(Which::Optimality, opts, &mut rep);
     rep
 }
 
@@ -396,18 +502,20 @@ pub fn run_c03(opts: &Opts) -> Report {
         "ignore_space=true only on dictionaries meeting the C12 precondition".into(),
         "'single character if nothing else was produced' counts lexicon matches as something (DESIGN 9)".into(),
     ];
-    let a = LatticeCheck { which: Which::Candidates, exclusive_space: false };
-    let b = LatticeCheck { which: Which::Candidates, exclusive_space: true };
+    let a = LatticeCheck { which: Which::Candidates, exclusive_space: false, resources: false };
+    let b = LatticeCheck { which: Which::Candidates, exclusive_space: true, resources: false };
     crate::props::committed_replays(&a, opts, &mut rep);
     crate::props::committed_replays(&b, opts, &mut rep);
     run_sub(&a, opts, opts.tier.pick(6000, 150_000), &mut rep);
     run_sub(&b, opts, opts.tier.pick(2500, 60_000), &mut rep);
+    run_resources(Which::Candidates, opts, &mut rep);
     rep
 }
 
 pub fn replay(id: &str, path: &std::path::Path) -> Option<i32> {
     let which = if id == "C02" { Which::Optimality } else { Which::Candidates };
     let id: &'static str = if id == "C02" { "C02" } else { "C03" };
-    crate::props::try_strict(&LatticeCheck { which, exclusive_space: false }, id, path)
-        .or_else(|| crate::props::try_strict(&LatticeCheck { which, exclusive_space: true }, id, path))
+    crate::props::try_strict(&LatticeCheck { which, exclusive_space: false, resources: false }, id, path)
+        .or_else(|| crate::props::try_strict(&LatticeCheck { which, exclusive_space: true, resources: false }, id, path))
+        .or_else(|| crate::props::try_strict(&LatticeCheck { which, exclusive_space: false, resources: true }, id, path))
 }
